@@ -15,6 +15,7 @@ EXPLANATION = (
     "Also decided (rounds 4/5, mutation map): no serializer dereferences the kwargs slot the proxy leaves None; marshal's pre-conversion recurses into containers with a per-path cycle guard; the byte normaliser returns the content of exactly the view it was given; the client refuses a reply encoded by another serializer before decoding it. "
     "documented type mapping, idempotence."
     "Also decided (round 9): A batch member's result is collected exactly as the method returned it. "
+    'Also decided (round 11): The exact-read obligations of receive_data are shared (C17 via C06): the serializer is handed exactly the payload bytes that were sent. '
     "Also decided (round 10): The marshal pre-conversion's cycle record is a parameter passed down by every recursive call (not state on the serializer); the oneway thread hands user keyword arguments over so that none can collide with a parameter of the thread's own function; no encoder is called with an option that drops or rewrites what the format cannot express (skipkeys, use_bin_type=False, unicode_errors). "
     "Not decided: that serpent/json/marshal/msgpack/zlib return what was put in over the unbounded value domain, the "
 )
